@@ -230,6 +230,9 @@ def explore(ctx: Ctx):
                 for k in keys:
                     multi.append(dict(tab, algo="PPO", script=sc, num_envs=E, num_steps=4, key=k, gamma=0.5, lam=0.25))
     ctx.run("multienv", multi)
-    ctx.run("streams", multi[:: (1 if thorough else 2)] + [dict(c, algo=a) for c in multi[::7] for a in ("A2C", "REINFORCE")])
+    # + a policy whose value depends on its own state (V(obs, c) = V[obs] + 3c): the bootstrap value V_T must come from the policy
+    #   state carried out of the rollout, not from one recorded inside it
+    ctx.run("streams", multi[:: (1 if thorough else 2)] + [dict(c, algo=a) for c in multi[::7] for a in ("A2C", "REINFORCE")]
+            + [dict(c, algo=a, VS=3.0) for c in multi[::5] for a in ("PPO", "A2C")])
     ctx.require("noninterference-cases", "multienv-different-done-patterns", "trunc_only", "term_only")
     ctx.notes["Tmax"] = Tmax
